@@ -18,11 +18,7 @@ Fixpoint fmt (p : part) : bytes :=
   | PSingle hs body => render hs ++ CRLF ++ body ++ CRLF
   | PMulti hs b ps =>
     render hs ++ CRLF ++
-    (fix go (l : list part) : bytes :=
-       match l with
-       | [] => []
-       | q :: r => DD ++ b ++ CRLF ++ fmt q ++ go r
-       end) ps ++
+    flat_map (fun q => DD ++ b ++ CRLF ++ fmt q) ps ++
     DD ++ b ++ DD ++ CRLF
   end.
 
